@@ -205,7 +205,7 @@ func (h harness) seq(r *vx.Run) *vx.Seq[*sys] {
 			var err error
 			if pendingOp {
 				before := mvx.DumpKey(db)
-				if perr := vx.Catch(func() { v.root, err = s.st.MemSet(set, true) }); perr != "" {
+				if perr := vx.Catch(func() { v.root, err = s.st.MemSet(set, true); mvx.Scribble(set.KV) }); perr != "" {
 					return s.classify("memset-panics", perr)
 				}
 				if err != nil || len(v.root) == 0 {
@@ -227,7 +227,7 @@ func (h harness) seq(r *vx.Run) *vx.Seq[*sys] {
 				}
 				return ""
 			}
-			if perr := vx.Catch(func() { v.root, err = s.st.Set(set, true) }); perr != "" {
+			if perr := vx.Catch(func() { v.root, err = s.st.Set(set, true); mvx.Scribble(set.KV) }); perr != "" {
 				return s.classify("set-panics", perr)
 			}
 			if err != nil || len(v.root) == 0 {
